@@ -291,9 +291,6 @@ theorem C10_load_any_order (es : List Entry) (ids : List Nat) (fuel : Nat) (hf :
     rw [p o.id] at this; cases this
   · exact h0
 
-/-- `a` mentions `b` (`a` an instance of the file) -/
-def Mentions (es : List Entry) (a b : Nat) : Prop := ∃ refs, refsOf es a = some refs ∧ b ∈ refs
-
 /-- **the loaded set contains the dependency closure**: after any history, for every requested instance of the file, every
     instance of the file it reaches through references (at any depth — no bound) is loaded too -/
 theorem C10_load_contains_deps (es : List Entry) (ids : List Nat) (fuel : Nat) (hf : es.length < fuel) :
@@ -327,6 +324,43 @@ theorem C10_load_contains_deps (es : List Entry) (ids : List Nat) (fuel : Nat) (
       obtain ⟨refs, hr, _⟩ := hm
       simp [known, hr]
     exact step m j' (ihm hkm) hm hkj
+
+/-- **the loaded set is exactly the requested instances and their dependency closure**: after any history an instance is in
+    the cache iff it is an instance of the file that was requested or is reached from a requested instance of the file -/
+theorem C10_loaded_set_exact (es : List Entry) (ids : List Nat) (fuel : Nat) (hf : es.length < fuel) :
+    ∃ c, loadAll cacheBeforeRead es fuel [] ids = .ok (c, ids.map (known es)) ∧
+      ∀ x, c.has x = true ↔ known es x = true ∧ ∃ id ∈ ids, known es id = true ∧ (x = id ∨ Reach (Mentions es) id x) := by
+  obtain ⟨c, h, hdeps⟩ := C10_load_contains_deps es ids fuel hf
+  obtain ⟨c2, h2, hobj, hreq⟩ := C10_load_any_order es ids fuel hf
+  have hcb : cacheBeforeRead = true := rfl
+  rw [hcb] at h h2
+  rw [h] at h2
+  have hcc : c = c2 := by injection h2 with h3; injection h3
+  subst hcc
+  refine ⟨c, by rw [hcb]; exact h, fun x => ⟨fun hx => ?_, fun hx => ?_⟩⟩
+  · have hkx : known es x = true := by
+      unfold Cache.has at hx
+      rw [List.any_eq_true] at hx
+      obtain ⟨o, ho, hox⟩ := hx
+      have : o.id = x := by simpa using hox
+      rw [← this]; exact (hobj o ho).1
+    refine ⟨hkx, ?_⟩
+    rcases loadAll_new es fuel ids [] c _ h x hx with h0 | ⟨id, hid, hxid⟩
+    · simp [Cache.has] at h0
+    · refine ⟨id, hid, ?_, hxid⟩
+      rcases hxid with e | e
+      · rw [← e]; exact hkx
+      · -- the first step of the path leaves an instance of the file
+        have : ∀ a b, Reach (Mentions es) a b → known es a = true := by
+          intro a b hr
+          induction hr with
+          | single hm => obtain ⟨refs, hr', _⟩ := hm; simp [known, hr']
+          | tail _ _ ih => exact ih
+        exact this id x e
+  · obtain ⟨hkx, id, hid, hkid, hxid⟩ := hx
+    rcases hxid with e | e
+    · rw [e]; exact hreq id hid hkid
+    · exact hdeps id hid hkid x e hkx
 
 /-- The code as it was (instance cached only after `getRealInstance` returns): on the two-instance cycle
     `#1=N('a',#2); #2=N('b',#1);` `loadInstance(1)` never returns — for every fuel the model runs out of it
